@@ -266,6 +266,38 @@ pub fn exec(mid: usize, op: &Op, lock: &BigLock) {
             }
         }
         Op::PopFinalized { dst } => pop_finalized(mid, *dst),
+        Op::FinalizersFor { root } => {
+            let t = with_world(|w| {
+                if w.spec.cfg.no_finalizer || !w.plan.collects {
+                    return None;
+                }
+                let id = w.root_id(mid, *root);
+                if id == 0 {
+                    return None;
+                }
+                Some((id, w.root_raw(mid, *root)))
+            });
+            if let Some((id, raw)) = t {
+                let o = obj::raw_to_ref(raw).unwrap();
+                let got = mm::get_finalizers_for(mmtk(), o);
+                with_world(|w| {
+                    let want = w.fin_registered.get(&id).cloned().unwrap_or(0) as usize;
+                    if got.len() != want || got.iter().any(|x| *x != o) {
+                        violation(
+                            "C06",
+                            "finalizers-for-wrong",
+                            format!(
+                                "get_finalizers_for(object {} at {:#x}) returned {:?}; the object has {} outstanding finalizer registration(s)",
+                                id, raw, got, want
+                            ),
+                        );
+                    }
+                    w.fin_registered.insert(id, 0);
+                    w.fin_unreachable_seen.remove(&id);
+                    w.count("finalizers_for");
+                });
+            }
+        }
         Op::AddEphemeron { key, value } => with_world(|w| {
             if !w.plan.collects {
                 return;
